@@ -504,6 +504,7 @@ private:
                 outp = place(n, (unsigned)op.geti("io"));
                 if (n) memcpy(outp, in->data(), n);
                 outs.push_back(OutRec{outp, n});
+                inputs.push_back(InRec{outp, *in, ROLE_DATA});   // the same bytes are the call's input
                 inp = outp; alias_lo = outp; alias_hi = outp + n;
             } else {
                 inp = place_in(ROLE_DATA, in, (unsigned)op.geti("io"));
@@ -564,6 +565,7 @@ private:
                 outp = place(n, (unsigned)op.geti("io"));
                 if (n) memcpy(outp, in->data(), n);
                 outs.push_back(OutRec{outp, n});
+                inputs.push_back(InRec{outp, *in, ROLE_DATA});   // the same bytes are the call's input
                 inp = outp; alias_lo = outp; alias_hi = outp + n;
             } else {
                 inp = place_in(ROLE_DATA, in, (unsigned)op.geti("io"));
